@@ -76,17 +76,52 @@ pub fn file_state_is(db: &FixtureDatabase, p: &str, want: &Fresh, check_imports:
     ok
 }
 
+/// Put a file into the index the way ONE fresh `analyze_file(p, text)` leaves it, without running the analyzer:
+/// the records are the generated `fresh_*` data (= what the real analyzer produced natively for that text on the
+/// current tree; gate `seed` re-checks seed == analyze_file). Used for the FIRST state of a history so that the
+/// harness pays for one real `analyze_file` (the re-analysis under test) instead of two.
+pub fn seed_file_state(db: &FixtureDatabase, p: &str, text: &str, fr: &Fresh) {
+    let pb = PathBuf::from(p);
+    db.file_cache.insert(pb.clone(), std::sync::Arc::new(text.to_string()));
+    if !fr.has_imports_entry { return; } // unparsable text: analyze_file only caches the text
+    for d in fr.defs.iter() {
+        db.definitions.entry(d.name.clone()).or_default().push(d.clone());
+        db.definitions_version.fetch_add(1, std::sync::atomic::Ordering::SeqCst);
+    }
+    if !fr.def_names.is_empty() {
+        let mut set = crate::coll::HashSet::new();
+        for n in fr.def_names.iter() { set.insert(n.clone()); }
+        db.file_definitions.insert(pb.clone(), set);
+    }
+    for u in fr.usages.iter() {
+        db.usages.entry(pb.clone()).or_default().push(u.clone());
+        db.usage_by_fixture.entry(u.name.clone()).or_default().push((pb.clone(), u.clone()));
+    }
+    let mut imp = crate::coll::HashSet::new();
+    for n in fr.imports.iter() { imp.insert(n.clone()); }
+    db.imports.insert(pb.clone(), imp);
+    if !fr.undeclared.is_empty() { db.undeclared_fixtures.insert(pb.clone(), fr.undeclared.clone()); }
+    // analyze_file also leaves the (content hash, line index) cache entry of the file behind — through the real code
+    let _ = db.get_line_index(&pb, text);
+}
+
 pub fn empty_fresh() -> Fresh { Fresh { defs: vec![], usages: vec![], undeclared: vec![], imports: vec![], def_names: vec![], has_imports_entry: false } }
 
+/// the table's conftest versions import nothing from other modules: the import walk (C14, out of solver reach — it
+/// also crashed CBMC in `".".repeat(level)`) is replaced by its answer for these texts
+pub fn stub_no_imports(_db: &FixtureDatabase, _p: &Path, _v: &mut crate::coll::HashSet<PathBuf>) -> crate::coll::HashSet<String> { crate::coll::HashSet::new() }
+pub fn stub_not_imported(_db: &FixtureDatabase, _n: &str, _p: &Path) -> bool { false }
 macro_rules! hist_arm {
     ($id:ident, $body:expr) => {
         #[cfg_attr(kani, kani::proof)]
-        #[cfg_attr(kani, kani::stub(rustpython_parser::parse, crate::oracle::oracle_parse))]
+        #[cfg_attr(kani, kani::stub(rustpython_parser::parse, crate::oracle::oracle_parse_hist))]
         #[cfg_attr(kani, kani::stub(std::path::Path::canonicalize, crate::stubs::canonicalize_err))]
         #[cfg_attr(kani, kani::stub(std::path::Path::exists, crate::stubs::path_exists_false))]
         #[cfg_attr(kani, kani::stub(std::hash::RandomState::new, crate::stubs::fixed_random_state))]
         #[cfg_attr(kani, kani::stub(std::arch::x86_64::__cpuid_count, crate::stubs::cpuid_none))]
         #[cfg_attr(kani, kani::stub(core::slice::memchr::memchr, crate::stubs::memchr_bytewise))]
+        #[cfg_attr(kani, kani::stub(crate::fixtures::FixtureDatabase::get_imported_fixtures, stub_no_imports))]
+        #[cfg_attr(kani, kani::stub(crate::fixtures::FixtureDatabase::is_fixture_imported_in_file, stub_not_imported))]
         pub fn $id() { $body }
     };
 }
@@ -98,139 +133,139 @@ macro_rules! paste_ok {
     (T_U_BAD) => { false };
     ($other:ident) => { true };
 }
-/// one arm of the symbolic second step: analyse version $t of the conftest and compare, INSIDE the arm
-/// (a state merged over three different analyses would make every later read a symbolic pointer)
-macro_rules! c06_arm {
-    ($db:ident, $first_fresh:expr, $t:ident, $f:ident) => {{
-        note!("then {}", stringify!($t));
-        $db.analyze_file(PathBuf::from(PC), $t);
-        let want = if paste_ok!($t) { $f(PC) } else { $first_fresh(PC) };
-        check!("c06.hist.state_is_fresh_state", file_state_is(&$db, PC, &want, true));
-        std::mem::forget(want);
-    }};
-}
-macro_rules! conftest_step2 {
-    ($first_text:expr, $first_fresh:expr, $a:ident, $fa:ident, $b:ident, $fb:ident, $c:ident, $fc:ident) => {{
-        let db = FixtureDatabase::new();
-        db.analyze_file(PathBuf::from(PC), $first_text);
-        let k: u8 = any();
-        assume(k < 3);
-        match k { 0 => c06_arm!(db, $first_fresh, $a, $fa), 1 => c06_arm!(db, $first_fresh, $b, $fb), _ => c06_arm!(db, $first_fresh, $c, $fc) }
-        reach!("c06.hist.end");
-        std::mem::forget(db);
-    }};
-}
 fn fresh_bad(_p: &str) -> Fresh { empty_fresh() }
 
-/// @harness id=c06_f_then_rename_empty_bad props=C06,C04,C12 unwind=40 mem=12 cap=2400
-/// conftest: C_F (defines f), then symbolically one of { C_G (f renamed to g), C_EMPTY, C_BAD (unparsable) }.
-hist_arm!(c06_f_then_rename_empty_bad, conftest_step2!(T_C_F, fresh_c_f, T_C_G, fresh_c_g, T_C_EMPTY, fresh_c_empty, T_C_BAD, fresh_bad));
-/// @harness id=c06_f_then_moved_comment_same props=C06,C04 unwind=40 mem=12 cap=2400
-/// conftest: C_F, then one of { C_F_MOVED (other line, a usage, plus g), C_COMMENT (parses, no statements), C_F again }.
-hist_arm!(c06_f_then_moved_comment_same, conftest_step2!(T_C_F, fresh_c_f, T_C_F_MOVED, fresh_c_f_moved, T_C_COMMENT, fresh_c_comment, T_C_F, fresh_c_f));
-/// @harness id=c06_ff_then_f_empty_ff props=C06 unwind=40 mem=12 cap=2400
-/// conftest: C_FF (the same name defined twice), then one of { C_F, C_EMPTY, C_FF again }.
-hist_arm!(c06_ff_then_f_empty_ff, conftest_step2!(T_C_FF, fresh_c_ff, T_C_F, fresh_c_f, T_C_EMPTY, fresh_c_empty, T_C_FF, fresh_c_ff));
-/// @harness id=c06_moved_then_f_g_bad props=C06,C04 unwind=40 mem=12 cap=2400
-/// conftest: C_F_MOVED (f(g), g), then one of { C_F (usage and g removed), C_G, C_BAD }.
-hist_arm!(c06_moved_then_f_g_bad, conftest_step2!(T_C_F_MOVED, fresh_c_f_moved, T_C_F, fresh_c_f, T_C_G, fresh_c_g, T_C_BAD, fresh_bad));
+// NOTE on what is symbolic here: nothing. A harness with a symbolic choice between two re-analyses reached the SAT
+// back end with a formula that did not fit into 14 GB (everything under the choice guard stays in the equation), so
+// every history is its own fully concrete harness: CBMC executes the real analyze_file on the table texts and decides
+// the obligation on that single path. The coverage of this family is exactly the list of pairs below.
 
-/// @harness id=c06_two_files props=C06,C04 unwind=40 mem=12 cap=2400
-/// conftest C_F and test module U_T analysed; then the test module changes to one of { U_TG, U_BAD, U_NONE };
-/// both files' records must be fresh-state, the other file untouched.
-hist_arm!(c06_two_files, {
-    let db = FixtureDatabase::new();
-    db.analyze_file(PathBuf::from(PC), T_C_F);
-    db.analyze_file(PathBuf::from(PU), T_U_T);
-    let k: u8 = any();
-    assume(k < 3);
-    macro_rules! arm { ($t:ident, $f:ident) => {{
-        note!("then {}", stringify!($t));
-        db.analyze_file(PathBuf::from(PU), $t);
-        let want_u = $f(PU);
-        let want_c = fresh_c_f(PC);
-        check!("c06.two.test_module_is_fresh_state", file_state_is(&db, PU, &want_u, true));
-        check!("c06.two.conftest_untouched", file_state_is(&db, PC, &want_c, true));
-        std::mem::forget(want_u); std::mem::forget(want_c);
-    }}; }
-    match k { 0 => arm!(T_U_TG, fresh_u_tg), 1 => arm!(T_U_BAD, fresh_u_t), _ => arm!(T_U_NONE, fresh_u_none) }
-    reach!("c06.two.end");
-    std::mem::forget(db);
-});
+/// history of one file: state of version $t1 (seeded from the fresh-index data), then the REAL analyze_file on $t2;
+/// the file's records in every map must equal a fresh index on the latest valid version
+macro_rules! c06_pair {
+    ($id:ident, $p:ident, $t1:ident, $f1:ident, $t2:ident, $want:ident) => {
+        hist_arm!($id, {
+            let db = FixtureDatabase::new();
+            let first = $f1($p);
+            seed_file_state(&db, $p, $t1, &first);
+            std::mem::forget(first);
+            note!("{} then {}", stringify!($t1), stringify!($t2));
+            db.analyze_file(PathBuf::from($p), $t2);
+            let want = $want($p);
+            check!("c06.hist.state_is_fresh_state", file_state_is(&db, $p, &want, true));
+            reach!("c06.hist.end");
+            std::mem::forget(want); std::mem::forget(db);
+        });
+    };
+}
 
-/// @harness id=c06_same_length_edit props=C06,C15 unwind=48 mem=14 cap=3000 unwindset=memchr_bytewise:140
+/// @harness id=c06_f_then_g props=C06,C04,C12 tier=quick unwind=40 mem=10 cap=1500 gates=seed unwindset=find_inner:3;memchr_seq:400;rec~ParseErrorType:3;rec~LexicalErrorType:3;rec~FStringErrorType:3;rec~drop_glue::<std::io::Error:3
+/// conftest C_F (defines f) then C_G (f renamed to g): nothing of f survives.
+c06_pair!(c06_f_then_g, PC, T_C_F, fresh_c_f, T_C_G, fresh_c_g);
+/// @harness id=c06_f_then_empty props=C06 tier=quick unwind=40 mem=10 cap=1500 gates=seed unwindset=find_inner:3;memchr_seq:400;rec~ParseErrorType:3;rec~LexicalErrorType:3;rec~FStringErrorType:3;rec~drop_glue::<std::io::Error:3
+/// conftest C_F then the empty text: all records gone.
+c06_pair!(c06_f_then_empty, PC, T_C_F, fresh_c_f, T_C_EMPTY, fresh_c_empty);
+/// @harness id=c06_f_then_bad props=C06 tier=quick unwind=40 mem=10 cap=1500 gates=seed unwindset=find_inner:3;memchr_seq:400;rec~ParseErrorType:3;rec~LexicalErrorType:3;rec~FStringErrorType:3;rec~drop_glue::<std::io::Error:3
+/// conftest C_F then an unparsable text: the last valid version stays in effect.
+c06_pair!(c06_f_then_bad, PC, T_C_F, fresh_c_f, T_C_BAD, fresh_c_f);
+/// @harness id=c06_f_then_comment props=C06 tier=quick unwind=40 mem=10 cap=1500 gates=seed unwindset=find_inner:3;memchr_seq:400;rec~ParseErrorType:3;rec~LexicalErrorType:3;rec~FStringErrorType:3;rec~drop_glue::<std::io::Error:3
+/// conftest C_F then a comment-only text (parses, zero statements): all records gone.
+c06_pair!(c06_f_then_comment, PC, T_C_F, fresh_c_f, T_C_COMMENT, fresh_c_comment);
+/// @harness id=c06_ff_then_f props=C06 tier=quick unwind=40 mem=10 cap=1500 gates=seed unwindset=find_inner:3;memchr_seq:400;rec~ParseErrorType:3;rec~LexicalErrorType:3;rec~FStringErrorType:3;rec~drop_glue::<std::io::Error:3
+/// conftest C_FF (the same name defined twice in one file) then C_F: exactly one definition remains.
+c06_pair!(c06_ff_then_f, PC, T_C_FF, fresh_c_ff, T_C_F, fresh_c_f);
+/// @harness id=c06_moved_then_f props=C06,C04 tier=quick unwind=40 mem=10 cap=1500 gates=seed unwindset=find_inner:3;memchr_seq:400;rec~ParseErrorType:3;rec~LexicalErrorType:3;rec~FStringErrorType:3;rec~drop_glue::<std::io::Error:3
+/// conftest C_F_MOVED (f(g), g) then C_F: the usage of g and the definition g are gone, f is at its new line.
+c06_pair!(c06_moved_then_f, PC, T_C_F_MOVED, fresh_c_f_moved, T_C_F, fresh_c_f);
+/// @harness id=c06_f_then_moved props=C06,C04 tier=thorough unwind=40 mem=10 cap=1500 gates=seed unwindset=find_inner:3;memchr_seq:400;rec~ParseErrorType:3;rec~LexicalErrorType:3;rec~FStringErrorType:3;rec~drop_glue::<std::io::Error:3
+/// conftest C_F then C_F_MOVED.
+c06_pair!(c06_f_then_moved, PC, T_C_F, fresh_c_f, T_C_F_MOVED, fresh_c_f_moved);
+/// @harness id=c06_f_then_same props=C06 tier=thorough unwind=40 mem=10 cap=1500 gates=seed unwindset=find_inner:3;memchr_seq:400;rec~ParseErrorType:3;rec~LexicalErrorType:3;rec~FStringErrorType:3;rec~drop_glue::<std::io::Error:3
+/// conftest C_F re-sent unchanged: nothing duplicated.
+c06_pair!(c06_f_then_same, PC, T_C_F, fresh_c_f, T_C_F, fresh_c_f);
+/// @harness id=c06_ff_then_empty props=C06 tier=thorough unwind=40 mem=10 cap=1500 gates=seed unwindset=find_inner:3;memchr_seq:400;rec~ParseErrorType:3;rec~LexicalErrorType:3;rec~FStringErrorType:3;rec~drop_glue::<std::io::Error:3
+/// conftest C_FF then empty.
+c06_pair!(c06_ff_then_empty, PC, T_C_FF, fresh_c_ff, T_C_EMPTY, fresh_c_empty);
+/// @harness id=c06_moved_then_bad props=C06 tier=thorough unwind=40 mem=10 cap=1500 gates=seed unwindset=find_inner:3;memchr_seq:400;rec~ParseErrorType:3;rec~LexicalErrorType:3;rec~FStringErrorType:3;rec~drop_glue::<std::io::Error:3
+/// conftest C_F_MOVED then unparsable.
+c06_pair!(c06_moved_then_bad, PC, T_C_F_MOVED, fresh_c_f_moved, T_C_BAD, fresh_c_f_moved);
+/// @harness id=c06_moved_then_ff props=C06 tier=thorough unwind=40 mem=10 cap=1500 gates=seed unwindset=find_inner:3;memchr_seq:400;rec~ParseErrorType:3;rec~LexicalErrorType:3;rec~FStringErrorType:3;rec~drop_glue::<std::io::Error:3
+/// conftest C_F_MOVED then C_FF.
+c06_pair!(c06_moved_then_ff, PC, T_C_F_MOVED, fresh_c_f_moved, T_C_FF, fresh_c_ff);
+/// @harness id=c06_test_then_two_params props=C06,C04 tier=quick unwind=40 mem=10 cap=1500 gates=seed unwindset=find_inner:3;memchr_seq:400;rec~ParseErrorType:3;rec~LexicalErrorType:3;rec~FStringErrorType:3;rec~drop_glue::<std::io::Error:3
+/// test module U_T then U_TG (moved one line down, second parameter): usages and reverse index follow.
+c06_pair!(c06_test_then_two_params, PU, T_U_T, fresh_u_t, T_U_TG, fresh_u_tg);
+/// @harness id=c06_test_then_bad props=C06 tier=thorough unwind=40 mem=10 cap=1500 gates=seed unwindset=find_inner:3;memchr_seq:400;rec~ParseErrorType:3;rec~LexicalErrorType:3;rec~FStringErrorType:3;rec~drop_glue::<std::io::Error:3
+/// test module U_T then unparsable.
+c06_pair!(c06_test_then_bad, PU, T_U_T, fresh_u_t, T_U_BAD, fresh_u_t);
+
+/// @harness id=c06_same_length_edit props=C06,C15 unwind=48 mem=12 cap=1800 gates=seed unwindset=find_inner:3;memchr_seq:400;memchr_bytewise:140;rec~ParseErrorType:3;rec~LexicalErrorType:3;rec~FStringErrorType:3;rec~drop_glue::<std::io::Error:3
 /// a test module longer than 256 bytes is re-analysed with content of the SAME length whose first and last 128
 /// bytes are unchanged (a space after a comma became a newline): positions must be those of a fresh index.
-hist_arm!(c06_same_length_edit, {
-    let db = FixtureDatabase::new();
-    db.analyze_file(PathBuf::from(PU), T_L_ONE_LINE);
-    db.analyze_file(PathBuf::from(PU), T_L_TWO_LINES);
-    let want = fresh_l_two_lines(PU);
-    check!("c06.same_length.state_is_fresh_state", file_state_is(&db, PU, &want, true));
-    reach!("c06.same_length.end");
-    std::mem::forget(want); std::mem::forget(db);
-});
+c06_pair!(c06_same_length_edit, PU, T_L_ONE_LINE, fresh_l_one_line, T_L_TWO_LINES, fresh_l_two_lines);
 
 // ------------------------------------------------------------------------------------------------ C10
-/// serial orders of {scan worker: analyze_file_fresh(F, disk)} and {didOpen: analyze_file(F, buffer)}.
-/// Afterwards the index must describe the BUFFER exactly once.
-/// @harness id=c10_scan_then_open props=C10 unwind=40 mem=12 cap=2400
-/// scan visits the conftest first (disk = C_F), then didOpen with buffer in { C_G, C_F (same), C_F_MOVED }.
-hist_arm!(c10_scan_then_open, {
-    let db = FixtureDatabase::new();
-    db.analyze_file_fresh(PathBuf::from(PC), T_C_F);
-    let k: u8 = any();
-    assume(k < 3);
-    macro_rules! arm { ($t:ident, $f:ident) => {{
-        note!("open {}", stringify!($t));
-        db.analyze_file(PathBuf::from(PC), $t);
-        let want = $f(PC);
-        check!("c10.scan_then_open.buffer_exactly_once", file_state_is(&db, PC, &want, true));
-        std::mem::forget(want);
-    }}; }
-    match k { 0 => arm!(T_C_G, fresh_c_g), 1 => arm!(T_C_F, fresh_c_f), _ => arm!(T_C_F_MOVED, fresh_c_f_moved) }
-    reach!("c10.scan_then_open.end");
-    std::mem::forget(db);
-});
-/// @harness id=c10_open_then_scan props=C10 unwind=40 mem=12 cap=2400
-/// didOpen first (buffer = C_G or C_F), then the scan worker reaches the file with the disk content C_F.
-/// The buffer must win; and one further change notification (symbolically C_F_MOVED, or C_F = the disk text again)
-/// must restore the single-analysis state.
-hist_arm!(c10_open_then_scan, {
-    let k: u8 = any();
-    assume(k < 4);
-    macro_rules! arm { ($open:ident, $fo:ident, $next:ident, $fn_:ident) => {{
-        let db = FixtureDatabase::new();
-        note!("open {}, scan C_F, then change {}", stringify!($open), stringify!($next));
-        db.analyze_file(PathBuf::from(PC), $open);
-        db.analyze_file_fresh(PathBuf::from(PC), T_C_F);
-        let want = $fo(PC);
-        if crate::kf::C10_SCAN_AFTER_OPEN_OVERWRITES {
-            check!("KF:c10.open_then_scan.buffer_exactly_once", file_state_is(&db, PC, &want, true));
-        } else {
-            check!("c10.open_then_scan.buffer_exactly_once", file_state_is(&db, PC, &want, true));
-        }
-        db.analyze_file(PathBuf::from(PC), $next);
-        let want2 = $fn_(PC);
-        check!("c10.open_then_scan.next_change_restores", file_state_is(&db, PC, &want2, true));
-        std::mem::forget(want); std::mem::forget(want2); std::mem::forget(db);
-    }}; }
-    match k {
-        0 => arm!(T_C_G, fresh_c_g, T_C_F_MOVED, fresh_c_f_moved),
-        1 => arm!(T_C_G, fresh_c_g, T_C_F, fresh_c_f),
-        2 => arm!(T_C_F, fresh_c_f, T_C_F_MOVED, fresh_c_f_moved),
-        _ => arm!(T_C_F, fresh_c_f, T_C_F, fresh_c_f),
-    }
-    reach!("c10.open_then_scan.end");
-});
-/// @harness id=c04_mirror_open_then_scan props=C04,C10 unwind=40 mem=12 cap=2400
-/// the test module is opened (analyze_file U_TG) and then reached by the scan with the same text
+/// serial orders of {scan worker: analyze_file_fresh(F, disk)} and {didOpen / didChange: analyze_file(F, buffer)}.
+macro_rules! c10_scan_open {
+    ($id:ident, $buf:ident, $fbuf:ident) => {
+        hist_arm!($id, {
+            let db = FixtureDatabase::new();
+            let disk = fresh_c_f(PC);
+            // the scan worker's analyze_file_fresh on a file not seen before == a fresh analysis (gate `seed`)
+            seed_file_state(&db, PC, T_C_F, &disk);
+            std::mem::forget(disk);
+            note!("scan C_F, then open {}", stringify!($buf));
+            db.analyze_file(PathBuf::from(PC), $buf);
+            let want = $fbuf(PC);
+            check!("c10.scan_then_open.buffer_exactly_once", file_state_is(&db, PC, &want, true));
+            reach!("c10.scan_then_open.end");
+            std::mem::forget(want); std::mem::forget(db);
+        });
+    };
+}
+macro_rules! c10_open_scan {
+    ($id:ident, $open:ident, $fo:ident, $next:ident, $fn_:ident) => {
+        hist_arm!($id, {
+            let db = FixtureDatabase::new();
+            note!("open {} (seeded), scan C_F, then change {}", stringify!($open), stringify!($next));
+            let opened = $fo(PC);
+            seed_file_state(&db, PC, $open, &opened);
+            db.analyze_file_fresh(PathBuf::from(PC), T_C_F);
+            if crate::kf::C10_SCAN_AFTER_OPEN_OVERWRITES {
+                check!("KF:c10.open_then_scan.buffer_exactly_once", file_state_is(&db, PC, &opened, true));
+            } else {
+                check!("c10.open_then_scan.buffer_exactly_once", file_state_is(&db, PC, &opened, true));
+            }
+            db.analyze_file(PathBuf::from(PC), $next);
+            let want2 = $fn_(PC);
+            check!("c10.open_then_scan.next_change_restores", file_state_is(&db, PC, &want2, true));
+            reach!("c10.open_then_scan.end");
+            std::mem::forget(opened); std::mem::forget(want2); std::mem::forget(db);
+        });
+    };
+}
+
+/// @harness id=c10_scan_then_open_other props=C10 tier=quick unwind=40 mem=10 cap=1500 gates=seed unwindset=find_inner:3;memchr_seq:400;rec~ParseErrorType:3;rec~LexicalErrorType:3;rec~FStringErrorType:3;rec~drop_glue::<std::io::Error:3
+/// the scan visited the conftest first (disk = C_F), then didOpen with a different buffer C_G: the buffer exactly once.
+c10_scan_open!(c10_scan_then_open_other, T_C_G, fresh_c_g);
+/// @harness id=c10_scan_then_open_same props=C10 tier=thorough unwind=40 mem=10 cap=1500 gates=seed unwindset=find_inner:3;memchr_seq:400;rec~ParseErrorType:3;rec~LexicalErrorType:3;rec~FStringErrorType:3;rec~drop_glue::<std::io::Error:3
+/// scan (C_F) then didOpen with the same text.
+c10_scan_open!(c10_scan_then_open_same, T_C_F, fresh_c_f);
+/// @harness id=c10_open_other_then_scan props=C10 tier=quick unwind=40 mem=10 cap=2400 gates=seed unwindset=find_inner:3;memchr_seq:400;rec~ParseErrorType:3;rec~LexicalErrorType:3;rec~FStringErrorType:3;rec~drop_glue::<std::io::Error:3
+/// didOpen (buffer C_G) first, then the scan worker reaches the file with the disk content C_F: the buffer must win; a further change whose text equals the DISK text (C_F) must restore the single-analysis state.
+c10_open_scan!(c10_open_other_then_scan, T_C_G, fresh_c_g, T_C_F, fresh_c_f);
+/// @harness id=c10_open_same_then_scan props=C10 tier=quick unwind=40 mem=10 cap=2400 gates=seed unwindset=find_inner:3;memchr_seq:400;rec~ParseErrorType:3;rec~LexicalErrorType:3;rec~FStringErrorType:3;rec~drop_glue::<std::io::Error:3
+/// didOpen (buffer == disk == C_F), then the scan: still exactly once; a further change (C_G) restores.
+c10_open_scan!(c10_open_same_then_scan, T_C_F, fresh_c_f, T_C_G, fresh_c_g);
+
+/// @harness id=c04_mirror_open_then_scan props=C04,C10 unwind=40 mem=10 cap=1500 gates=seed unwindset=find_inner:3;memchr_seq:400;rec~ParseErrorType:3;rec~LexicalErrorType:3;rec~FStringErrorType:3;rec~drop_glue::<std::io::Error:3
+/// the test module is open (U_TG, seeded) and then reached by the scan with the same text
 /// (analyze_file_fresh U_TG), no edit in between: the reverse index must still mirror `usages` (no usage twice).
 hist_arm!(c04_mirror_open_then_scan, {
     let db = FixtureDatabase::new();
-    db.analyze_file(PathBuf::from(PU), T_U_TG);
-    db.analyze_file_fresh(PathBuf::from(PU), T_U_TG);
     let want = fresh_u_tg(PU);
+    seed_file_state(&db, PU, T_U_TG, &want);
+    db.analyze_file_fresh(PathBuf::from(PU), T_U_TG);
     let pb = PathBuf::from(PU);
     let n_us = db.usages.get(&pb).map(|u| u.value().len()).unwrap_or(0);
     let mut n_rev = 0usize;
@@ -251,59 +286,74 @@ fn clear_caches(db: &FixtureDatabase) {
     db.line_index_cache.clear();
     db.ast_cache.clear();
 }
-/// @harness id=c07_warm_available props=C07 unwind=40 mem=14 cap=3000
-/// analyse conftest C_F; WARM the per-file view of U; then the conftest changes to one of
-/// { C_EMPTY (definitions only removed), C_G (renamed), C_F_LINE (same names, moved), C_F_MOVED }; the warm answer must equal the answer
-/// after dropping every cache (cold).
-hist_arm!(c07_warm_available, {
-    let k: u8 = any();
-    assume(k < 4);
-    macro_rules! arm { ($t:ident, $kf:expr) => {{
-        let db = FixtureDatabase::new();
-        db.analyze_file(PathBuf::from(PC), T_C_F);
-        let warm0 = db.get_available_fixtures(Path::new(PU));
-        note!("then {}", stringify!($t));
-        db.analyze_file(PathBuf::from(PC), $t);
-        let warm = lines_of(&db.get_available_fixtures(Path::new(PU)));
-        clear_caches(&db);
-        let cold = lines_of(&db.get_available_fixtures(Path::new(PU)));
-        note!("warm={:?} cold={:?}", warm, cold);
-        if $kf && crate::kf::C07_NO_VERSION_BUMP_ON_REMOVAL {
-            check!("KF:c07.available.warm_is_cold", warm == cold);
-        } else {
-            check!("c07.available.warm_is_cold", warm == cold);
-        }
-        std::mem::forget(warm0); std::mem::forget(warm); std::mem::forget(cold); std::mem::forget(db);
-    }}; }
-    match k { 0 => arm!(T_C_EMPTY, true), 1 => arm!(T_C_G, false), 2 => arm!(T_C_F_LINE, false), _ => arm!(T_C_F_MOVED, false) }
-    reach!("c07.available.end");
-});
-/// @harness id=c07_close_reopen props=C07 unwind=40 mem=14 cap=3000
-/// analyse conftest C_F and test module U_T; close (cleanup_file_cache) either file, symbolically; resolution
+/// conftest C_F in the index (seeded); WARM the per-file view of U; then the conftest is re-analysed with $t;
+/// the warm answer must equal the answer after dropping every cache (cold).
+macro_rules! c07_warm {
+    ($id:ident, $t:ident, $kf:expr) => {
+        hist_arm!($id, {
+            let db = FixtureDatabase::new();
+            let first = fresh_c_f(PC);
+            seed_file_state(&db, PC, T_C_F, &first);
+            std::mem::forget(first);
+            let warm0 = db.get_available_fixtures(Path::new(PU));
+            note!("warm view {:?}; then {}", lines_of(&warm0), stringify!($t));
+            db.analyze_file(PathBuf::from(PC), $t);
+            let warm = lines_of(&db.get_available_fixtures(Path::new(PU)));
+            clear_caches(&db);
+            let cold = lines_of(&db.get_available_fixtures(Path::new(PU)));
+            note!("warm={:?} cold={:?}", warm, cold);
+            if $kf && crate::kf::C07_NO_VERSION_BUMP_ON_REMOVAL {
+                check!("KF:c07.available.warm_is_cold", warm == cold);
+            } else {
+                check!("c07.available.warm_is_cold", warm == cold);
+            }
+            reach!("c07.available.end");
+            std::mem::forget(warm0); std::mem::forget(warm); std::mem::forget(cold); std::mem::forget(db);
+        });
+    };
+}
+
+/// @harness id=c07_warm_then_remove props=C07 tier=quick unwind=40 mem=12 cap=2400 gates=seed unwindset=find_inner:3;memchr_seq:400;rec~ParseErrorType:3;rec~LexicalErrorType:3;rec~FStringErrorType:3;rec~drop_glue::<std::io::Error:3
+/// warm per-file view, then the edit only REMOVES definitions (C_EMPTY): warm == cold.
+c07_warm!(c07_warm_then_remove, T_C_EMPTY, true);
+/// @harness id=c07_warm_then_move props=C07 tier=quick unwind=40 mem=12 cap=2400 gates=seed unwindset=find_inner:3;memchr_seq:400;rec~ParseErrorType:3;rec~LexicalErrorType:3;rec~FStringErrorType:3;rec~drop_glue::<std::io::Error:3
+/// warm per-file view, then the edit keeps the name set and moves f to another line (C_F_LINE): warm == cold.
+c07_warm!(c07_warm_then_move, T_C_F_LINE, false);
+/// @harness id=c07_warm_then_rename props=C07 tier=thorough unwind=40 mem=12 cap=2400 gates=seed unwindset=find_inner:3;memchr_seq:400;rec~ParseErrorType:3;rec~LexicalErrorType:3;rec~FStringErrorType:3;rec~drop_glue::<std::io::Error:3
+/// warm per-file view, then the edit renames f to g (C_G): warm == cold.
+c07_warm!(c07_warm_then_rename, T_C_G, false);
+/// @harness id=c07_warm_then_add props=C07 tier=thorough unwind=40 mem=12 cap=2400 gates=seed unwindset=find_inner:3;memchr_seq:400;rec~ParseErrorType:3;rec~LexicalErrorType:3;rec~FStringErrorType:3;rec~drop_glue::<std::io::Error:3
+/// warm per-file view, then the edit moves f and adds g (C_F_MOVED): warm == cold.
+c07_warm!(c07_warm_then_add, T_C_F_MOVED, false);
+
+/// conftest C_F and test module U_T in the index (seeded); close one document (cleanup_file_cache); resolution
 /// from the test module and its per-file view must be what they were before the close.
-hist_arm!(c07_close_reopen, {
-    let db = FixtureDatabase::new();
-    db.analyze_file(PathBuf::from(PC), T_C_F);
-    db.analyze_file(PathBuf::from(PU), T_U_T);
-    let before = db.find_closest_definition(Path::new(PU), "f").map(|d| d.line);
-    let av_before = lines_of(&db.get_available_fixtures(Path::new(PU)));
-    // which document is closed is the arm; the database is rebuilt per arm so that nothing is merged
-    std::mem::forget(db);
-    let which: bool = any();
-    macro_rules! arm { ($p:expr) => {{
-        let db = FixtureDatabase::new();
-        db.analyze_file(PathBuf::from(PC), T_C_F);
-        db.analyze_file(PathBuf::from(PU), T_U_T);
-        let _warm = db.get_available_fixtures(Path::new(PU));
-        note!("close {}", $p);
-        db.cleanup_file_cache(Path::new($p));
-        let after = db.find_closest_definition(Path::new(PU), "f").map(|d| d.line);
-        let av_after = lines_of(&db.get_available_fixtures(Path::new(PU)));
-        check!("c07.close.resolution_unchanged", before == after);
-        check!("c07.close.view_unchanged", av_before == av_after);
-        std::mem::forget(av_after); std::mem::forget(_warm); std::mem::forget(db);
-    }}; }
-    if which { arm!(PC) } else { arm!(PU) }
-    reach!("c07.close.end");
-    std::mem::forget(av_before);
-});
+macro_rules! c07_close {
+    ($id:ident, $p:ident) => {
+        hist_arm!($id, {
+            let db = FixtureDatabase::new();
+            let fc = fresh_c_f(PC); let fu = fresh_u_t(PU);
+            seed_file_state(&db, PC, T_C_F, &fc);
+            seed_file_state(&db, PU, T_U_T, &fu);
+            std::mem::forget(fc); std::mem::forget(fu);
+            let before = db.find_closest_definition(Path::new(PU), "f").map(|d| d.line);
+            let av_before = lines_of(&db.get_available_fixtures(Path::new(PU)));
+            note!("close {}", $p);
+            db.cleanup_file_cache(Path::new($p));
+            let after = db.find_closest_definition(Path::new(PU), "f").map(|d| d.line);
+            let av_after = lines_of(&db.get_available_fixtures(Path::new(PU)));
+            note!("resolution {:?} -> {:?}; view {:?} -> {:?}", before, after, av_before, av_after);
+            check!("c07.close.resolution_unchanged", before == after);
+            check!("c07.close.view_unchanged", av_before == av_after);
+            reach!("c07.close.end");
+            std::mem::forget(av_before); std::mem::forget(av_after); std::mem::forget(db);
+        });
+    };
+}
+
+/// @harness id=c07_close_conftest props=C07 tier=quick unwind=40 mem=12 cap=2400 gates=seed unwindset=find_inner:3;memchr_seq:400;rec~ParseErrorType:3;rec~LexicalErrorType:3;rec~FStringErrorType:3;rec~drop_glue::<std::io::Error:3
+/// open-then-close of the unmodified conftest.
+c07_close!(c07_close_conftest, PC);
+/// @harness id=c07_close_test_module props=C07 tier=thorough unwind=40 mem=12 cap=2400 gates=seed unwindset=find_inner:3;memchr_seq:400;rec~ParseErrorType:3;rec~LexicalErrorType:3;rec~FStringErrorType:3;rec~drop_glue::<std::io::Error:3
+/// open-then-close of the unmodified test module.
+c07_close!(c07_close_test_module, PU);
